@@ -22,6 +22,9 @@ import props.C13 as c13
 import props.C17 as c17
 import props.C19 as c19
 
+# results of these callees are computed by user code (methods of user-supplied generic parameters)
+USER_CODE = ('probability::distribution::',)
+
 TRUSTED_DATA = {
     # (self adt or fn path fragment, method) -> (invariant relied upon, owning type)
     ('stream::model::categorical::contiguous::ContiguousCategoricalEntropyModel', 'quantile_function'):
@@ -336,6 +339,24 @@ def check_sites(ctx, F):
             else:
                 ctx.bad('R8', 'entry index of an unchecked table walk is in bounds', b.defpath,
                         'the index with which the unchecked walk starts is not proven < len (even assuming a non-empty table): an out-of-alphabet value reaches get_unchecked', key=k2, loc=loc)
+        if row and name in ('into_nonzero_unchecked', 'new_unchecked'):
+            # USER-DATA: a value computed by user code (a method of a user-supplied generic parameter, e.g.
+            # Distribution::distribution) is not validated data.  It may only be trusted where the path examined it:
+            # some dominating predicate mentions an operand of the difference that is declared non-zero.
+            unexamined = None
+            for r, i, e in hits:
+                arg = e['args'][0]
+                if not sym.contains(arg, lambda x: isinstance(x, tuple) and x and x[0] == 'call' and isinstance(x[1], str) and x[1].startswith(USER_CODE)):
+                    continue
+                ops = [arg] + ([arg[2], arg[3]] if arg[0] == 'bin' and arg[1].split('.')[0] == 'Sub' else [])
+                preds = r.preds[:rules.preds_before(r, i)]
+                if not any(any(sym.contains(t, lambda x, o=o: x == o) for o in ops) for t, v, _ in preds):
+                    unexamined = sym.show(arg)[:120]
+            if unexamined:
+                ctx.bad('R8', role, b.defpath, 'USER-DATA: the value declared non-zero (%s) is computed from the result of user code (%s...) and no predicate on the path examines it or its operands; '
+                        'sibling views of the same quantity convert it with the checked into_nonzero().expect(..). A distribution whose cdf is not monotone makes it zero: undefined behaviour from safe code' % (unexamined, USER_CODE[0]),
+                        key=key, loc=loc)
+                continue
         if row and name in ('get_unchecked', 'get_unchecked_mut', 'into_nonzero_unchecked', 'new_unchecked'):
             kinds['TRUSTED-DATA'] = kinds.get('TRUSTED-DATA', 0) + 1
             trusted_rows[okey] = row
